@@ -788,22 +788,3 @@ fn modified(n: usize) {
 
 proof!(c39_modified_byte_rejected_3, modified(3));
 proof!(c39_modified_byte_rejected_8, modified(8));
-
-// ---- temporary profiling harnesses ----
-proof!(tmp_x2, {
-    let r: Result<u64, Error> = if kani::any() {
-        Err(Error::Authentication)
-    } else {
-        Ok(kani::any())
-    };
-    assert!(r.is_ok() || r.is_err());
-    core::mem::forget(r);
-});
-proof!(tmp_m3, {
-    let e = &mut env::<AdvAead>(true);
-    let _ = open_case(e, 30, 6);
-});
-proof!(tmp_m4, {
-    let e = &mut env::<AdvAead>(true);
-    let _ = open_case(e, 3, 0);
-});
